@@ -171,20 +171,30 @@ def const_eval(body, op, depth=0):
     return None
 
 
+def canon_place(body, op, depth=0):
+    """canonical source place of an operand: follows single-definition copies and `*(&P)` pairs"""
+    if op is None or op[0] not in ("c", "m") or depth > 12:
+        return None
+    p = list(op[1])
+    # `(*_r)` where `_r = &P`  ->  P
+    if len(p) >= 2 and p[1] == "*":
+        defs = [d for d in body.defs_of_local(p[0]) if len(d[1][0]) == 1]
+        if len(defs) == 1 and defs[0][1][1][0] == "ref":
+            inner = canon_place(body, ["c", defs[0][1][1][1]], depth + 1)
+            if inner is not None:
+                return inner + p[2:]
+        return p
+    if len(p) == 1:
+        defs = [d for d in body.defs_of_local(p[0]) if len(d[1][0]) == 1]
+        if len(defs) == 1 and defs[0][1][1][0] == "use" and defs[0][1][1][1][0] in ("c", "m"):
+            return canon_place(body, defs[0][1][1][1], depth + 1)
+    return p
+
+
 def same_value(body, op_a, op_b, depth=0):
-    """do two operands denote the same runtime value (copies of one local)?"""
-    def root(op):
-        seen = set()
-        while op and op[0] in ("c", "m") and len(op[1]) == 1 and op[1][0] not in seen:
-            seen.add(op[1][0])
-            defs = body.defs_of_local(op[1][0])
-            if len(defs) == 1 and defs[0][1][1][0] == "use" and defs[0][1][1][1][0] in ("c", "m"):
-                op = defs[0][1][1][1]
-            else:
-                break
-        return op
-    a, b = root(op_a), root(op_b)
-    return a[0] in ("c", "m") and b[0] in ("c", "m") and a[1] == b[1]
+    """do two operands denote the same runtime value (copies of one place)?"""
+    a, b = canon_place(body, op_a), canon_place(body, op_b)
+    return a is not None and a == b
 
 
 def comparisons(body):
